@@ -333,6 +333,8 @@ def like_spec(c, ids=None):
     if t.get("keep") and not kind.startswith("unrooted"):
         tree["newick"] = topo.newick(names, keep_lengths(topo, _clocklike_heights(c), t["keep"]))
         tree["keep_branch_lengths"] = True
+    if c.get("newick_prefix"):
+        tree["newick"] = c["newick_prefix"] + tree["newick"]
     seqs = []
     for i in c["seq_order"]:
         seqs.append({"taxon": names[i], "sequence": "".join(col[i] for col in c["cols"])})
